@@ -255,6 +255,19 @@ Section Keys.
         end
     end.
 
+  (* the multi-party flow of examples/pset_blind_coinjoin.rs: the non-last parties (secrets, randomness) one after the other,
+     the PSET handed on through `hop` (serialize, send, deserialize), then the last party *)
+  Fixpoint run_nonlast (hop : pset -> pset) (p : profile) (ps : pset) (l : list (list (nat * secrets) * list Z)) : oc pset_err pset :=
+    match l with
+    | [] => OVal ps
+    | (sec, rnd) :: r => let* (ps', _, _) := blind_non_last p ps sec rnd in run_nonlast hop p (hop ps') r
+    end.
+  Definition run_flow (hop : pset -> pset) (p : profile) (ps : pset) (l : list (list (nat * secrets) * list Z))
+    (lastp : list (nat * secrets) * list Z) : oc pset_err (pset * list (nat * (Z * Z * Z))) :=
+    let* ps1 := run_nonlast hop p ps l in
+    let* (ps2, bl, _) := blind_last p ps1 (fst lastp) (snd lastp) in
+    OVal (ps2, bl).
+
   (* extract_tx: inputs carry only the issuance here, outputs as in the code *)
   Fixpoint extract_outputs (outs : list pout) : oc pset_err (list txout) :=
     match outs with
